@@ -193,6 +193,7 @@ fn run(case: &Case, cx: &mut Cx) -> CaseResult {
     cx.nontrivial = nontrivial > 0;
     cx.label_if(nontrivial > 0, "straddling-resume");
     cx.label_if(case.stride > 1, "gaps-in-ids");
+    cx.label_if(case.universe.len() >= 100, "wide:100+paths");
     cx.label_if(case.bands.iter().any(|b| matches!(b, BandSpec::NoHead { .. })), "headless-dir");
     cx.label_if(
         case.bands.iter().any(|b| matches!(b, BandSpec::Band { missing_tail_hunks, .. } if *missing_tail_hunks > 0)),
@@ -343,7 +344,69 @@ fn band_strategy() -> BoxedStrategy<(u8, Vec<bool>, Vec<u8>, u8, bool)> {
         .boxed()
 }
 
+/// Wide cases: 100-250 paths, hunks of mostly one entry (so a band has a hundred or more
+/// hunks), interrupted bands cut at a generated point: resume points that fall anywhere in
+/// a long older index.
+fn wide_strategy() -> BoxedStrategy<Case> {
+    let band = (
+        0u8..10,
+        prop::collection::vec(prop::bool::weighted(0.85), 256),
+        prop::collection::vec(prop_oneof![6 => Just(1u8), 2 => 2u8..4, 1 => Just(0u8)], 60..250),
+        any::<u8>(),
+        any::<bool>(),
+    );
+    (100usize..250, 2usize..8, prop::collection::vec(band, 2..=4), prop::collection::vec(any::<u16>(), 0..2))
+        .prop_map(|(n, dirs, bands, subs)| {
+            let mut universe: Vec<String> = vec!["/".to_string()];
+            for d in 0..dirs {
+                universe.push(format!("/d{d}"));
+            }
+            for i in 0..n {
+                if i % 3 == 0 {
+                    universe.push(format!("/f{i:03}"));
+                } else {
+                    universe.push(format!("/d{}/f{i:03}", i % dirs));
+                }
+            }
+            universe.sort_by(|a, b| ref_cmp(a, b));
+            universe.truncate(255);
+            let len = universe.len();
+            let bands = bands
+                .into_iter()
+                .map(|(kind, mask, hunks, cut, closed)| match kind {
+                    0 => BandSpec::NoHead { tail: false },
+                    _ => {
+                        // an interrupted band holds a prefix of what it would have held
+                        let limit = if closed { len } else { (cut as usize * (len + 1)) >> 8 };
+                        let entries: Vec<u8> = (0..len as u8).filter(|i| (*i as usize) < limit && mask[*i as usize]).collect();
+                        // no run of empty hunks after the last entry
+                        let mut total = 0usize;
+                        let hunks: Vec<u8> = hunks
+                            .into_iter()
+                            .take_while(|h| {
+                                let go = total < entries.len();
+                                total += *h as usize;
+                                go
+                            })
+                            .collect();
+                        BandSpec::Band { entries, hunks, missing_tail_hunks: 0, closed }
+                    }
+                })
+                .collect();
+            let mut subtrees = vec!["/".to_string()];
+            for s in subs {
+                subtrees.push(universe[(s as usize * len) >> 16].clone());
+            }
+            Case { universe, base: 0, stride: 1, bands, subtrees, excludes: vec![vec![]] }
+        })
+        .boxed()
+}
+
 fn strategy(_tier: Tier) -> BoxedStrategy<Case> {
+    prop_oneof![9 => small_strategy(), 1 => wide_strategy()].boxed()
+}
+
+fn small_strategy() -> BoxedStrategy<Case> {
     (
         universe_strategy(),
         prop_oneof![6 => Just(1u32), 2 => 2u32..4, 1 => Just(17u32), 1 => 20u32..60],
